@@ -450,9 +450,11 @@ fn main() {
                 _ => panic!("unknown surface"),
             };
             println!("{}\t{}", q, obs.iter().map(|x| x.to_string()).collect::<Vec<_>>().join(" "));
+            // only the first step that contradicts the reference: later steps of the same history inherit the damage
+            let first = findings.iter().map(|f| f.0).min();
             let mut seen = BTreeSet::new();
             for (i, sig, d) in findings {
-                if !seen.insert(sig.clone()) { continue; }
+                if Some(i) != first || !seen.insert(sig.clone()) { continue; }
                 println!("!ORACLE\t{}\t{}\tstep {} of: {}", sig, d.replace('\t', " "), i, replay_text(&ops[..=i]));
             }
             dist.hit(&format!("history-length:{}", match ops.len() { 0..=8 => "1-8", 9..=40 => "9-40", 41..=100 => "41-100", _ => "101+" }));
